@@ -249,8 +249,12 @@ struct ReluctantRepeatIterator<'a> {
     operation: &'a Operation,
     min: usize,
     max: usize,
-    counter: usize,
-    position: Option<usize>,
+    start: usize,
+    started: bool,
+    // one iterator per iteration of the body performed so far, with the
+    // position reached after that iteration
+    iterators: Vec<Box<dyn Iterator<Item = usize> + 'a>>,
+    positions: Vec<usize>,
 }
 
 impl<'a> ReluctantRepeatIterator<'a> {
@@ -266,8 +270,10 @@ impl<'a> ReluctantRepeatIterator<'a> {
             operation,
             min,
             max,
-            counter: 0,
-            position: Some(position),
+            start: position,
+            started: false,
+            iterators: Vec::new(),
+            positions: Vec::new(),
         }
     }
 }
@@ -275,32 +281,59 @@ impl<'a> ReluctantRepeatIterator<'a> {
 impl Iterator for ReluctantRepeatIterator<'_> {
     type Item = usize;
 
+    // Fewest iterations first. To find the next result, first try to add one
+    // more iteration after the current ones; if that is not possible,
+    // backtrack into the most recent iteration (which may have further ways
+    // of matching) and drop it when it is exhausted.
     fn next(&mut self) -> Option<Self::Item> {
         #[cfg(regexml_verif)]
         crate::verif::tick();
+        if !self.started {
+            self.started = true;
+            if self.min == 0 {
+                return Some(self.start);
+            }
+        }
         loop {
             #[cfg(regexml_verif)]
             crate::verif::tick();
-            if let Some(position) = self.position {
-                let mut it = self.operation.matches_iter(self.matcher, position);
-                if let Some(position) = it.next() {
-                    self.counter += 1;
-                    if self.counter > self.max {
-                        self.position = None;
-                    } else {
-                        self.position = Some(position);
-                    }
-                }
-            } else if self.min == 0 && self.counter == 0 {
-                self.counter += 1;
+            let count = self.iterators.len();
+            let current = self.positions.last().copied().unwrap_or(self.start);
+            let previous = if count >= 2 {
+                self.positions[count - 2]
             } else {
-                self.position = None;
+                self.start
+            };
+            // an optional iteration that made no progress is not extended
+            let stuck = count > self.min && current == previous;
+            if count < self.max && !stuck {
+                let mut it = self.operation.matches_iter(self.matcher, current);
+                if let Some(p) = it.next() {
+                    self.iterators.push(it);
+                    self.positions.push(p);
+                    if self.iterators.len() >= self.min {
+                        return Some(p);
+                    }
+                    continue;
+                }
             }
-            if self.counter >= self.min || self.position.is_none() {
-                break;
+            loop {
+                #[cfg(regexml_verif)]
+                crate::verif::tick();
+                let top = self.iterators.last_mut()?;
+                if let Some(p) = top.next() {
+                    self.positions.pop();
+                    self.positions.push(p);
+                    break;
+                } else {
+                    self.iterators.pop();
+                    self.positions.pop();
+                }
+            }
+            if self.iterators.len() >= self.min {
+                return self.positions.last().copied();
             }
         }
-        self.position
     }
 }
 
